@@ -23,9 +23,9 @@ class C17(hc.PProp):
     sim_limit_s = 3000
 
     def plan(self, rng, tier, index):
-        kind = rng.choice(['rock', 'rock', 'ufs', 'ufs', 'both'])
+        kind = rng.choice(['rock', 'rock', 'ufs', 'ufs', 'both', 'ufs2'])
         conf = {'cache': kind, 'cache_mem_mb': rng.choice([0, 1, 8]), 'lines': ['maximum_object_size_in_memory 0 KB'] if rng.random() < 0.4 else [], 'store_log': True,
-                'ufs_mb': 64, 'rock_mb': 64, 'rock_slot': rng.choice([4096, 16384, 32768])}
+                'ufs_mb': 64, 'ufs_small_max': rng.choice([4096, 20000, 1000000]), 'rock_mb': 64, 'rock_slot': rng.choice([4096, 16384, 32768])}
         plan = hc.std_plan(rng, conf, hostile=False)
         plan['knobs'] = {'net.seg.max': [rng.choice([1460, 16384])], 'clock.tick_us': [1, 20]}
         nurl = rng.randint(4, 9)
